@@ -60,10 +60,14 @@ type params struct {
 	Depth   int  // sequential dials by the main thread
 	Threads int  // 0: sequential histories; 2: concurrent dialling threads, then `Depth` sequential dials
 	Yield   bool // shuffle yields between swaps
+	TTL     int  // >0: refresh scenario instead: DNSCaching(1s) with a ticker that may fire TTL times; `Depth` steps, each a dial or a change of the host's DNS records
 	CT      int  // >0: connect-to scenario instead: CT replacement addresses, `Threads` threads dialling the mapped address `Depth` times each
 }
 
 func (p params) name() string {
+	if p.TTL > 0 {
+		return fmt.Sprintf("refresh,ticks<=%d,steps=%d,%s", p.TTL, p.Depth, p.Set)
+	}
 	if p.CT > 0 {
 		return fmt.Sprintf("connect-to,replacements=%d,threads=%d,dials-each=%d", p.CT, p.Threads, p.Depth)
 	}
@@ -84,6 +88,7 @@ type world struct {
 	dials [][]string // per thread (index 0 = main): addresses passed to the base dial function, in order
 	cur   []int      // per thread: index of the thread's current dial in its own log
 	bad   string
+	hist  []string
 }
 
 func (w *world) checkDial(who string, got []string) {
@@ -170,8 +175,92 @@ func (w *world) mainCT() {
 	}
 }
 
+// mainTTL: caching with a refresh interval. The main thread performs `Depth`
+// steps, each either a dial or a change of the host's records (both explored);
+// the refresh goroutine's ticker may fire up to TTL times anywhere in between.
+// A dial that starts when two refresh intervals have fully passed since the
+// records last changed must only use current addresses.
+func (w *world) mainTTL() {
+	p := w.p
+	vsched.SpawnPoints = false
+	vrand.YieldInShuffle = false
+	vsched.TickBudget = p.TTL
+	const ttl = time.Second
+	vers := [][]string{{"10.0.0.1"}, {"10.0.0.2"}, {"10.0.0.3"}}
+	if p.Set == "dual" {
+		vers = [][]string{{"10.0.0.1", "fd00::1"}, {"10.0.0.2", "fd00::2"}, {"10.0.0.3"}}
+	}
+	cur := 0
+	dnsmem.Set("rot.test.", vers[0])
+	w.dials = make([][]string, 1)
+	tr := &http.Transport{DialContext: func(ctx context.Context, network, addr string) (net.Conn, error) {
+		w.dials[0] = append(w.dials[0], addr)
+		return fakeConn{}, nil
+	}}
+	atk := vegeta.NewAttacker(vegeta.Client(&http.Client{Transport: tr}), vegeta.DNSCaching(ttl))
+	changedAt := 0 // completed refreshes when the records last changed
+	var hist []string
+	for k := 0; k < p.Depth; k++ {
+		// the clock read puts the number of refreshes so far into this thread's
+		// history, which orders every step against the refreshes (they share no
+		// managed object: dnscache runs uninstrumented) and keeps the state cache sound
+		vsched.TimeNow()
+		ticks := int(vsched.ClockPeek() / ttl)
+		if k > 0 && vsched.Choose(2, "step") == 1 {
+			cur = (cur + 1) % len(vers)
+			dnsmem.Set("rot.test.", vers[cur])
+			changedAt = ticks
+			hist = append(hist, fmt.Sprintf("records->%v@%d", vers[cur], ticks))
+			continue
+		}
+		before := len(w.dials[0])
+		_, err := tr.DialContext(context.Background(), "tcp", "rot.test:80")
+		got := append([]string(nil), w.dials[0][before:]...)
+		hist = append(hist, fmt.Sprintf("dial%v@%d", got, ticks))
+		if w.bad != "" {
+			continue
+		}
+		if err != nil {
+			w.bad = fmt.Sprintf("dial failed: %v", err)
+			continue
+		}
+		n4, n6 := 0, 0
+		for _, a := range got {
+			host, _, _ := net.SplitHostPort(a)
+			known, current := false, false
+			for vi, v := range vers {
+				for _, x := range v {
+					if x == host {
+						known = true
+						current = current || vi == cur
+					}
+				}
+			}
+			if isV4(host) {
+				n4++
+			} else {
+				n6++
+			}
+			if !known {
+				w.bad = fmt.Sprintf("refresh: dialled %s, never resolved for the host; history %v", a, hist)
+			} else if !current && ticks-changedAt >= 2 {
+				w.bad = fmt.Sprintf("refresh: dial goes to stale address %s although %d refresh intervals passed since the records changed to %v; history %v", host, ticks-changedAt, vers[cur], hist)
+			}
+		}
+		if w.bad == "" && (n4 != 1 || n6 > 1) {
+			w.bad = fmt.Sprintf("refresh: dialled %v: want exactly one address per resolved family; history %v", got, hist)
+		}
+	}
+	w.hist = hist
+	atk.Stop()
+}
+
 func (w *world) main() {
 	p := w.p
+	if p.TTL > 0 {
+		w.mainTTL()
+		return
+	}
 	if p.CT > 0 {
 		w.mainCT()
 		return
@@ -232,6 +321,9 @@ func (w *world) end(s *vsched.Sched, r *vsched.Result) (string, string) {
 	if w.bad != "" {
 		return w.bad, "bad"
 	}
+	if w.p.TTL > 0 {
+		return "", fmt.Sprint(w.hist)
+	}
 	if w.p.CT > 0 {
 		return "", fmt.Sprint(w.dials)
 	}
@@ -244,7 +336,11 @@ func (w *world) end(s *vsched.Sched, r *vsched.Result) (string, string) {
 
 func scenario(p params) vsched.Scenario {
 	ag := &agg{next: map[uint64]map[string]bool{}, how: map[uint64]string{}}
-	return vsched.Scenario{Name: p.name(),
+	mode := vsched.ClockFrozen
+	if p.TTL > 0 {
+		mode = vsched.ClockStepped // a ticker firing moves the virtual clock to its deadline; the harness counts refreshes by it
+	}
+	return vsched.Scenario{Name: p.name(), Mode: mode,
 		Make: func() vsched.Instance {
 			dnsmem.ResetQueries()
 			w := &world{p: p, ag: ag}
@@ -252,7 +348,7 @@ func scenario(p params) vsched.Scenario {
 		},
 		After: func() []string {
 			var bad []string
-			if p.CT > 0 {
+			if p.CT > 0 || p.TTL > 0 {
 				return nil
 			}
 			want := sets[p.Set]
@@ -323,6 +419,11 @@ func plans() []plan {
 	// connect-to under concurrent dials
 	ps = append(ps, plan{params{CT: 2, Threads: 2, Depth: 1}, -1}, plan{params{CT: 2, Threads: 2, Depth: 2}, -1},
 		plan{params{CT: 3, Threads: 3, Depth: 1}, -1}, plan{params{CT: 3, Threads: 2, Depth: 3}, ev.Pick(3, -1)})
+	// refresh goroutine: records change while the cache is refreshed on a ticker
+	ps = append(ps, plan{params{TTL: 3, Depth: 3, Set: "single"}, -1}, plan{params{TTL: 3, Depth: 4, Set: "single"}, -1}, plan{params{TTL: 3, Depth: 3, Set: "dual"}, ev.Pick(1, -1)})
+	if th {
+		ps = append(ps, plan{params{TTL: 4, Depth: 5, Set: "single"}, 2})
+	}
 	return ps
 }
 
@@ -397,6 +498,9 @@ func TestC18(t *testing.T) {
 			if pl[i].p.CT > 0 {
 				key = "connect-to:concurrent:" + classify(v.Message)
 			}
+			if pl[i].p.TTL > 0 {
+				key = "dns:refresh:" + classify(v.Message)
+			}
 			R.Violation(key, map[string]any{"scenario": st.Scenario, "message": v.Message, "choices": v.Choices, "trace": v.Trace, "preemptions": v.Preempt})
 		}
 	}
@@ -418,6 +522,8 @@ func classify(msg string) string {
 		return "resolved more than once"
 	case strings.Contains(msg, "connect-to rotation uneven"):
 		return "connect-to rotation uneven"
+	case strings.Contains(msg, "stale address"):
+		return "stale address after two refresh intervals"
 	}
 	return strings.Map(func(r rune) rune {
 		if r >= '0' && r <= '9' {
